@@ -38,6 +38,7 @@ func (i *interpreter) syncMapOf(p value) *omap {
 	m := i.syncMaps[addr]
 	if m == nil {
 		m = makeMap(types.NewInterfaceType(nil, nil).Complete(), 0).(*omap)
+		m.noRace = true
 		i.syncMaps[addr] = m
 		i.logUndo(func() { delete(i.syncMaps, addr) })
 	}
